@@ -331,11 +331,23 @@ def frontier_reach_form(ctx, pid):
             # an array literal per PlayerNum context
             l = x2[1]
             vals = q.multi_def_values(g, l)
+            hops = 0
+            while len(vals) == 1 and strip_refs(vals[0][2])[0] == 'var' and g.locals[strip_refs(vals[0][2])[1]]['ty'] == '[f64; 2]' and hops < 6:
+                # handed on by value (e.g. returned by an inlined helper that scaled its own copy)
+                l = strip_refs(vals[0][2])[1]
+                vals = q.multi_def_values(g, l)
+                hops += 1
             copies = [v for _, _, v in vals if popfield(res(v)) == 2]
             lits = [(cs_, strip_refs(v)) for _, cs_, v in vals if strip_refs(v)[0] == 'agg' and strip_refs(v)[1] == 'array']
             if copies and not lits:
                 scaled = [e_ for bj, t_, e_ in q.calls_named(g, 'mul_assign') if q.is_call(strip_refs(e_[2][0]), 'ind_mut') and
                           q.find_sub(strip_refs(e_[2][0])[2][1], lambda y: y == ('var', l, g.local_name(l))) is not None]
+                # the same in-place scaling with a by-value factor is a plain store `*ind_mut(num, &mut l) = *.. * prob`
+                for bj, st_, pl_, rhs_ in q.stores(g):
+                    tgt_ = strip_refs(pl_)
+                    r_ = strip_refs(rhs_)
+                    if q.is_call(tgt_, 'ind_mut') and q.find_sub(tgt_[2][1], lambda y: y == ('var', l, g.local_name(l))) is not None and r_[0] == 'bin' and r_[1] == 'Mul' and norm(r_[2]) == norm(pl_):
+                        scaled.append(('call', 'mul_assign', (pl_, r_[3])))
                 if len(scaled) == 1 and 'num' in facts.show(strip_refs(scaled[0][2][0])[2][0]):
                     how2 = 'own-scaled'
                 elif not scaled:
